@@ -76,6 +76,8 @@ fn align_probe(s: usize, e: usize) -> &'static str {
 pub struct HuffScen {
     /// 0 = u8 symbols, 1 = u16 symbols
     pub wide: bool,
+    /// property the failures are reported for (6, or 10 for "merged regions start empty and work")
+    pub prop: u8,
 }
 
 struct Hc<B: Sym> {
@@ -119,7 +121,8 @@ impl HuffScen {
         let mut dig = Digest::default();
         let mut cx = Cx::default();
         let mut pop: Vec<Hc<B>> = vec![Hc { c: Default::default(), coded: false, accept: BTreeSet::new(), lens: BTreeMap::new(), stats: BTreeMap::new(), model: Vec::new(), generation: 0 }];
-        let fail = |o: &str, step: usize, d: String| Some((format!("C06/huff/{o}"), step, d));
+        let prop = self.prop;
+        let fail = |o: &str, step: usize, d: String| Some((format!("C{prop:02}/huff/{o}"), step, d));
         let conv = |item: &[u32]| -> (Vec<B>, Vec<u32>) {
             let syms: Vec<u32> = item.iter().map(|x| x % (B::max_sym() + 1)).collect();
             (syms.iter().map(|x| B::from_u32(*x)).collect(), syms)
